@@ -93,6 +93,27 @@ def _parse_env(R):
     return g, rd, cons[0]
 
 
+def frame_fresh(R, RID):
+    """The frame handed on by parse() is an object constructed for that frame: an instance kept in a field and re-filled keeps
+    whatever the previous frame left in the attributes the new header does not set (the payload of an empty Ping)."""
+    g = R.cfg(PARSE, CFP)
+    rd = ReachingDefs(g)
+    ys = [y for y in g.yields() if isinstance(y.ast.value, ast.Name) and any(
+        isinstance(t, str) and t.startswith('inst:frame.') for t in R.types.expr(y.ast.value, g.ctx))]
+    need(ys, 'FrameParser.parse: `yield frame` not found')
+    y = ys[-1]
+    bad = []
+    for (oe, on) in rd.origins(y, y.ast.value):
+        fresh = isinstance(oe, ast.Call) and any(t.kind == 'ctor' and t.cls in ('frame.Frame', 'frame.CompressedFrame')
+                                                 for t in R.types.call_targets(oe, g.ctx))
+        if not fresh:
+            bad.append(U(oe)[:50])
+    R.ob(RID, 'every yielded frame is a newly constructed object', not bad,
+         'the frame yielded by parse() can be %s - an object that outlives one frame: attributes the header does not overwrite '
+         '(the payload when the length is 0) still hold the previous frame\'s values' % bad[:2], func=PARSE, node=y.ast,
+         construct='yielded frame object')
+
+
 def _bits(e, names):
     """Return (source name, shift, effective mask) when expression e computes the bit-field (name >> shift) & mask of
     one header byte.  Decided semantically: e (constants, arithmetic/bit operators, bool()/int(), comparisons) is
